@@ -100,8 +100,13 @@ Inductive lkind :=
 | LOk.           (* success *)
 Record lres := { l_kind : lkind; l_dump : nat; l_leak : list nat (* storage entries left, per user class *); l_files : list nat }.
 
-Inductive op := New (slot : nat) (c : cfg) | Load (slot : nat) (input : nat).
-Inductive out := OCreate (r : cres) | OLoad (r : lres) | ONoSlot.
+(* when, inside a load, user code (a scope provider, an object processor, a model processor) starts another load *)
+Inductive phase :=
+| PhProvider     (* during reference resolution: the outer load still holds the instrumentation of its user classes *)
+| PhAfter.       (* from an object / model processor: the outer load has restored its user classes *)
+Inductive op := New (slot : nat) (c : cfg) | Load (slot : nat) (input : nat)
+              | Nested (slot input : nat) (ph : phase) (slot' input' : nat).
+Inductive out := OCreate (r : cres) | OLoad (r : lres) | ONoSlot | ONest (r : lres) (inner : out).
 
 Definition upd {A} (f : nat -> A) (k : nat) (v : A) : nat -> A := fun k' => if Nat.eqb k' k then v else f k'.
 Definition upd2 {A} (f : bool -> bool -> A) (a b : bool) (v : A) : bool -> bool -> A :=
@@ -213,8 +218,68 @@ Section Machine.
           classes := leak_classes (c_classes c) (l_leak r) (map_classes (c_classes c) (class_effect r) (classes st)) |}, OLoad r)
     end.
 
+  (* --- a load started from inside a load.  The outer load is split where the user code runs. *)
+  (* outer load up to the provider calls: parsed (memo caches written and cleared), user classes replaced *)
+  Definition begin_load (st : pst) (s : nat) (m : mm) (i : nat) : pst :=
+    let c := m_cfg m in
+    let m' := {| m_cfg := c; m_ser := m_ser m;
+                 m_bp_dirty := m_bp_dirty m || negb (f_loads_use_clone F) || negb (f_clone_resets F);
+                 m_cache := after_parse (c_memo c) i (m_cache m); m_repo := m_repo m; m_stale := m_stale m |} in
+    {| gparsers := gparsers st; gp_keys := gp_keys st;
+       base_cache := if c_base c then after_parse (c_memo c) i (base_cache st) else base_cache st;
+       base_owner := base_owner st; next_ser := next_ser st;
+       slots := upd (slots st) s (Some m');
+       classes := map_classes (c_classes c) replace_u (classes st) |}.
+
+  (* the rest of the outer load: what class_effect does after the replacement *)
+  Definition finish_effect (r : lres) : ucls -> ucls :=
+    let ex := when (f_except_restores F) restore_u in
+    let en := when (f_end_restores F) restore_u in
+    let pr := when (f_restore_on_primitive F) restore_u in
+    let im := when (f_restore_on_immutable F) restore_u in
+    let unguarded := when (negb (f_restore_guarded F)) in
+    match l_kind r with
+    | LSyntax | LBeforeEnd => ex            (* (the parse succeeded: providers ran) *)
+    | LImportSyntax => fun u => ex (unguarded ex u)
+    | LAfterEnd => fun u => unguarded ex (en u)
+    | LModelProc | LOk => en
+    | LOkPrim => pr
+    | LOkImm => im
+    end.
+
+  Definition finish_load (st : pst) (s : nat) (c : cfg) (r : lres) : pst :=
+    {| gparsers := gparsers st; gp_keys := gp_keys st; base_cache := base_cache st; base_owner := base_owner st;
+       next_ser := next_ser st;
+       slots := match slots st s with
+                | None => slots st
+                | Some m => upd (slots st) s (Some {| m_cfg := m_cfg m; m_ser := m_ser m; m_bp_dirty := m_bp_dirty m; m_cache := m_cache m;
+                                                     m_repo := if c_repo c then repo_effect r (m_repo m) else m_repo m;
+                                                     m_stale := m_stale m |})
+                end;
+       classes := leak_classes (c_classes c) (l_leak r) (map_classes (c_classes c) (finish_effect r) (classes st)) |}.
+
+  Definition step_nested (st : pst) (s i : nat) (ph : phase) (s' i' : nat) : pst * out :=
+    match slots st s with
+    | None => (st, ONoSlot)
+    | Some m =>
+      let c := m_cfg m in
+      let r := load_out c i (view_of st m) in       (* i names the outer input together with the load it starts *)
+      match ph with
+      | PhAfter =>      (* as far as persistent state goes: the outer load, then the inner one *)
+        let st1 := fst (step_load st s i) in
+        let '(st2, o2) := step_load st1 s' i' in (st2, ONest r o2)
+      | PhProvider =>
+        let '(st2, o2) := step_load (begin_load st s m i) s' i' in
+        (finish_load st2 s c r, ONest r o2)
+      end
+    end.
+
   Definition step (st : pst) (o : op) : pst * out :=
-    match o with New s c => step_new st s c | Load s i => step_load st s i end.
+    match o with
+    | New s c => step_new st s c
+    | Load s i => step_load st s i
+    | Nested s i ph s' i' => step_nested st s i ph s' i'
+    end.
 
   Fixpoint run (st : pst) (ops : list op) : pst * list out :=
     match ops with
